@@ -229,21 +229,29 @@ def r2(ctx, chk):
             why = ""
             unproven = []
             if not ok and isinstance(subj, ast.Name) and subj.id in f.params():
-                # every caller passes a naive value
-                idx = f.params().index(subj.id)
-                off = 1 if (f.is_method() and f.kind() != "static") else 0
-                sites = [(s2, ck) for ck in cg.callers.get(fk, ()) for s2 in cg.sites[ck]
-                         if f in s2.callees and isinstance(s2.node, ast.Call)]
-                res = []
-                for s2, ck in sites:
-                    arg = s2.node.args[idx - off] if 0 <= idx - off < len(s2.node.args) else None
-                    for kw in s2.node.keywords:
-                        if kw.arg == subj.id:
-                            arg = kw.value
-                    res.append(arg is not None and (_naive_expr(arg, s2.fn, ctx) or _guarded_naive(s2.fn, s2.node, ast.unparse(arg))))
-                    if not res[-1]:
-                        unproven.append(ck)
-                ok = bool(res) and all(res)
+                # every caller passes a naive value (a caller that hands on its own parameter is judged by ITS callers, two levels deep)
+                def callers_naive(g_, pname, depth):
+                    gk = g_.key
+                    idx = g_.params().index(pname)
+                    off = 1 if (g_.is_method() and g_.kind() != "static") else 0
+                    sites = [(s2, ck) for ck in cg.callers.get(gk, ()) for s2 in cg.sites[ck]
+                             if g_ in s2.callees and isinstance(s2.node, ast.Call)]
+                    res_ = []
+                    for s2, ck in sites:
+                        arg = s2.node.args[idx - off] if 0 <= idx - off < len(s2.node.args) else None
+                        for kw in s2.node.keywords:
+                            if kw.arg == pname:
+                                arg = kw.value
+                        r_ = arg is not None and (_naive_expr(arg, s2.fn, ctx) or _guarded_naive(s2.fn, s2.node, ast.unparse(arg)))
+                        if not r_ and depth < 2 and isinstance(arg, ast.Name) and arg.id in s2.fn.params() \
+                                and not any(isinstance(x, ast.Assign) and any(isinstance(t_, ast.Name) and t_.id == arg.id for t_ in x.targets)
+                                            and getattr(x, "lineno", 0) < s2.node.lineno for x in iter_own_nodes(s2.fn.node)):
+                            r_ = callers_naive(s2.fn, arg.id, depth + 1)[0]
+                        res_.append(r_)
+                        if not r_:
+                            unproven.append(ck)
+                    return bool(res_) and all(res_), res_
+                ok, res = callers_naive(f, subj.id, 0)
                 why = "callers: %d, naive at all of them: %s" % (len(res), ok)
             chk.ob(rule, "%s: `%s` attaches a zone to a provably naive value" % (f.qual, ast.unparse(node)[:60]), ok,
                    "the value may already be aware here: attaching a zone to it changes the instant (an aware value "
@@ -387,7 +395,7 @@ def local_zone_rule(ctx, chk, rule):
                    "from the current clock): dates in the other DST phase get the wrong offset",
                    key={"function": fk, "construct": "local zone source " + " ".join(ast.unparse(node).split())[:60]},
                    file=f.file, function=f.qual, line=node.lineno)
-    chk.floor(rule + ".local", n, 4, "zone attachments under a 'local' guard")
+    chk.floor(rule + ".local", n, 3, "zone attachments under a 'local' guard")
     # get_date_from_timestamp: the local zone for fromtimestamp
     f = ctx.ix.func("dateparser.date:get_date_from_timestamp")
     for node in iter_own_nodes(f.node):
@@ -589,10 +597,22 @@ def aware_value_untouched_rule(ctx, chk, rule):
                     facts.add("naive" if q else "aware")
         return facts
 
-    def attach_only(v):
-        return isinstance(v, ast.Call) and isinstance(v.func, ast.Attribute) and (
-            (v.func.attr == "localize" and len(v.args) == 1 and ast.unparse(v.args[0]) == p and not v.keywords)
-            or (v.func.attr == "replace" and ast.unparse(v.func.value) == p and [k.arg for k in v.keywords] == ["tzinfo"] and not v.args))
+    def attach_only(v, pn=None, depth=0):
+        pn = pn or p
+        if isinstance(v, ast.Call) and isinstance(v.func, ast.Attribute) and (
+                (v.func.attr == "localize" and len(v.args) == 1 and ast.unparse(v.args[0]) == pn and not v.keywords)
+                or (v.func.attr == "replace" and ast.unparse(v.func.value) == pn and [k.arg for k in v.keywords] == ["tzinfo"] and not v.args)):
+            return True
+        # a helper that does nothing but attach: h(dt, tz) all of whose returns are attach-only on its own first parameter
+        if isinstance(v, ast.Call) and isinstance(v.func, ast.Name) and v.args and ast.unparse(v.args[0]) == pn and depth < 2:
+            h = ctx.ix.lookup_module_attr(f.module, v.func.id)
+            if h is not None and hasattr(h, "node") and isinstance(h.node, ast.FunctionDef) and h.params():
+                hr = [s_ for s_ in iter_own_stmts(h.node.body) if isinstance(s_, ast.Return)]
+                hp = h.params()[0]
+                no_rebind = not any(isinstance(x, (ast.Assign, ast.AugAssign)) and any(
+                    isinstance(t_, ast.Name) and t_.id == hp for t_ in (x.targets if isinstance(x, ast.Assign) else [x.target])) for x in iter_own_nodes(h.node))
+                return bool(hr) and no_rebind and all(r_.value is not None and attach_only(r_.value, hp, depth + 1) for r_ in hr)
+        return False
     tested = any(facts_at(n) for n in iter_own_nodes(f.node) if isinstance(n, (ast.Return, ast.Assign)))
     for r in rets:
         rf = facts_at(r)
